@@ -132,6 +132,12 @@ func (t *sleepTransaction) Disconnect(disconnect *pkts1.Disconnect) {
 	if t.finished() {
 		return
 	}
+	if t.state == awaitingDisconnect && t.disconnect == nil {
+		// The reply has arrived already (the DISCONNECT was resent and both
+		// copies were answered, or the reply was duplicated on the way): the
+		// sleep period which is running must not start again.
+		return
+	}
 	if t.state != awaitingDisconnect {
 		// Not a reply to our DISCONNECT: the gateway has ended the session.
 		t.log.Debug("Received DISCONNECT, quitting")
